@@ -60,6 +60,18 @@ def test_mandatory_option_required(
                 " required."
             )
         )
+    # A tag without a value declares nothing (think of an unset shell
+    # variable: --contributor "$AUTHOR").
+    for option, values in (
+        ("--copyright", copyright_),
+        ("--contributor", contributor),
+    ):
+        if any(not value.strip() for value in values or ()):
+            raise click.UsageError(
+                _("Option '{option}' requires a value that is not empty.").format(
+                    option=option
+                )
+            )
 
 
 # Symbolic links are never followed. The header does not belong in whatever
